@@ -281,13 +281,15 @@ func c28frames(r *verifrt.R, k *c28counts) {
 			if kind == c28frameKinds-1 && lastPadding {
 				kind = 0 // two PADDING runs would be one run on the wire
 			}
-			lastPadding = kind == c28frameKinds-1
 			before := len(w.b)
 			availBefore := w.avail()
 			want, added, note := c28writeFrame(rng, &w, kind)
 			c.Describe(map[string]any{"limit": lim, "frame": c28name(want.typ), "note": note, "fields": fmt.Sprint(want.ints), "avail_before": availBefore})
 			if len(w.b) > w.pktLim {
 				c.Violation("writer-exceeds-packet-limit", "%s %s: packet grew to %d bytes, limit %d (avail before %d)", c28name(want.typ), note, len(w.b), w.pktLim, availBefore)
+			}
+			if added {
+				lastPadding = kind == c28frameKinds-1
 			}
 			if !added {
 				k.add("frames_writer_refused", 1)
